@@ -550,6 +550,7 @@ var integer64 = []*instructionType{
 		inputRegCnt:  0,
 		hasOutputReg: true,
 		immediate:    immTypeI,
+		uimm:         true,
 		instrType:    model.TypeCPUStateChange,
 		effects: func(i instruction) []expr.Effect {
 			key := csrKey(i)
@@ -564,6 +565,7 @@ var integer64 = []*instructionType{
 		inputRegCnt:  0,
 		hasOutputReg: true,
 		immediate:    immTypeI,
+		uimm:         true,
 		instrType:    model.TypeCPUStateChange,
 		effects: func(i instruction) []expr.Effect {
 			key := csrKey(i)
@@ -580,6 +582,7 @@ var integer64 = []*instructionType{
 		inputRegCnt:  0,
 		hasOutputReg: true,
 		immediate:    immTypeI,
+		uimm:         true,
 		instrType:    model.TypeCPUStateChange,
 		effects: func(i instruction) []expr.Effect {
 			key := csrKey(i)
